@@ -38,10 +38,15 @@ def represent(rng, A, form, fill):
         big = np.zeros((2 * n + 1, 2 * n + 1), dtype=M.dtype)
         big[1::2, 1::2][:n, :n] = M
         return big[1::2, 1::2][:n, :n]
-    if form in ("csr", "csc", "coo", "lil", "dok"):
-        return getattr(sps, form + "_matrix")(M)
-    if form == "csr_array":
-        return sps.csr_array(M) if hasattr(sps, "csr_array") else sps.csr_matrix(M)
+    if form in ("csr", "csc", "coo", "lil", "dok", "csr_array"):
+        W = M
+        if rng.random() < 0.35:
+            # stored values other than 1 (edge lengths of a k-neighbours graph, similarities, multiples of 256): still the same
+            # unweighted graph - an entry is an edge iff it is non-zero
+            W = M * rng.choice([rng.uniform(0.05, 0.9, M.shape), rng.uniform(0.1, 5.0, M.shape), np.full(M.shape, 256.0), np.full(M.shape, 0.5)])
+        if form == "csr_array":
+            return sps.csr_array(W) if hasattr(sps, "csr_array") else sps.csr_matrix(W)
+        return getattr(sps, form + "_matrix")(W)
     # explicitly stored zeros at some non-edges
     r, c = np.nonzero(M)
     n = len(M)
